@@ -13,6 +13,7 @@ def check(ctx):
     core4.library_ordering_rule(ctx, "C10")
     core.cg_priority_edges(ctx, "C10")
     core.cg_priority_passthrough(ctx, "C10")
+    core.mgr_relation_copy(ctx, "C10")
     core2.mgr_ready_dependencies(ctx, "C10")
     core2.mgr_runnable(ctx, "C10")
     core2.sched_run_definitions(ctx, "C10", want_equiv=False)
